@@ -10,6 +10,7 @@ import (
 	"encoding/hex"
 	"encoding/json"
 	"fmt"
+	"github.com/tjfoc/gmsm/x509"
 	"os"
 	"strings"
 	"time"
@@ -53,7 +54,7 @@ type resObs struct {
 }
 
 func tlsOrGM(proto string) map[string]uint16 {
-	if proto == "tls" {
+	if proto == "tls" || proto == "auto_tls" {
 		return map[string]uint16{"CBC": gmtls.TLS_RSA_WITH_AES_128_CBC_SHA, "GCM": gmtls.TLS_RSA_WITH_AES_128_GCM_SHA256}
 	}
 	return map[string]uint16{"CBC": gmtls.GMTLS_SM2_WITH_SM4_SM3, "GCM": gmtls.GMTLS_ECC_SM4_GCM_SM3}
@@ -167,7 +168,31 @@ func runHistory(ops []resOp, proto string, capN int) ([]resObs, error) {
 				cvers = gmtls.VersionTLS12
 			}
 			var sc, cc *gmtls.Config
-			if proto == "gm" {
+			if proto == "auto_gm" || proto == "auto_tls" {
+				// the auto-switch server of the documentation, serving whichever protocol the client speaks
+				sig, enc, rsaC := f.sig, f.enc, f.rsa
+				var err error
+				if sc, err = gmtls.NewBasicAutoSwitchConfig(&sig, &enc, &rsaC); err != nil {
+					return nil, err
+				}
+				if proto == "auto_gm" {
+					cc = &gmtls.Config{GMSupport: &gmtls.GMSupport{}, InsecureSkipVerify: true}
+					if ccert {
+						cc.Certificates = []gmtls.Certificate{f.auth}
+					}
+				} else {
+					cc = &gmtls.Config{InsecureSkipVerify: true, MaxVersion: cvers}
+					if ccert {
+						cc.Certificates = []gmtls.Certificate{f.rsaAuth}
+					}
+				}
+				both := x509.NewCertPool()
+				for _, n := range []string{"SM2_CA.cer", "RSA_CA.cer"} {
+					b, _ := os.ReadFile(certPath(n))
+					both.AppendCertsFromPEM(b)
+				}
+				sc.ClientCAs = both
+			} else if proto == "gm" {
 				sc = &gmtls.Config{GMSupport: &gmtls.GMSupport{}, Certificates: []gmtls.Certificate{f.sig, f.enc}}
 				cc = &gmtls.Config{GMSupport: &gmtls.GMSupport{}, InsecureSkipVerify: true}
 				if ccert {
@@ -223,9 +248,13 @@ func runHistory(ops []resOp, proto string, capN int) ([]resObs, error) {
 				}
 				o.SrvSawCert = len(ss.PeerCertificates) > 0
 				if o.Complete {
-					e1, x1 := cs.ExportKeyingMaterial("verif", nil, 32)
-					e2, x2 := ss.ExportKeyingMaterial("verif", nil, 32)
-					o.EkmEqual = x1 == nil && x2 == nil && bytes.Equal(e1, e2)
+					if p := recoverStr(func() {
+						e1, x1 := cs.ExportKeyingMaterial("verif", nil, 32)
+						e2, x2 := ss.ExportKeyingMaterial("verif", nil, 32)
+						o.EkmEqual = x1 == nil && x2 == nil && bytes.Equal(e1, e2)
+					}); p != "" {
+						o.Panic = "ExportKeyingMaterial: " + p
+					}
 					_, e := transfer(cli, srv, 3000, step)
 					o.DataOK = e == nil
 				}
